@@ -462,7 +462,7 @@ func init() {
 			"thorough": map[string]any{"files": "T1,T5,T6,T7 x 6 option sets (chunk sizes 1/60/1000, CRC on/off, xor codec, validating or not)", "cut": "as quick"},
 		},
 		outside:     append([]string{"files longer than 640 bytes"}, outsideCommon...),
-		assumptions: append([]string{"stored chunk CRCs are non-zero (with the CRC uninterpreted, 0 is otherwise a feasible value and means 'validation not available'; a real CRC-32 is 0 with probability 2^-32)"}, commonAssumptions...),
+		assumptions: append([]string{"stored chunk CRCs are non-zero (with the CRC uninterpreted, 0 is otherwise a feasible value and means 'validation not available'; a real CRC-32 is 0 with probability 2^-32)", "ideal checksum: two CRC values are equal exactly when the byte sequences fed are equal (an accidental collision between a truncated chunk and the stored CRC has probability 2^-32)"}, commonAssumptions...),
 	}
 }
 
@@ -520,7 +520,7 @@ func init() {
 			"thorough": map[string]any{"files": "T1,T5,T6,T7 under 7 option sets (incl. xor codec, unchunked, non-validating)", "readers": "as quick + reverse log-time order", "fragmentation": "J over 0..159", "io_error": "both delivery forms at every position"},
 		},
 		outside:     append([]string{"a one-shot (non-sticky) error delivered together with the last bytes a ReadFull needs: io.ReadAtLeast drops it by specification", "more than one short read per run (the every-read-limited schedules cover repeated fragmentation)"}, outsideCommon...),
-		assumptions: append([]string{"stored chunk CRCs are non-zero (with the CRC uninterpreted, 0 is otherwise a feasible value and means 'validation not available'; a real CRC-32 is 0 with probability 2^-32)"}, commonAssumptions...),
+		assumptions: append([]string{"stored chunk CRCs are non-zero (with the CRC uninterpreted, 0 is otherwise a feasible value and means 'validation not available'; a real CRC-32 is 0 with probability 2^-32)", "ideal checksum: two CRC values are equal exactly when the byte sequences fed are equal (an accidental collision between a truncated chunk and the stored CRC has probability 2^-32)"}, commonAssumptions...),
 	}
 }
 
